@@ -215,11 +215,20 @@ def build(case, parallel=(), perm=None):
         params = {'spec': spec, 'name': spec['name']}
         if perm is not None:
             params['perm'] = derive(perm, spec['name'])
-        st = KStep(params)
         path = spec['path']
-        topo = _topology_for(spec, len(path) - 1)
-        topo.pop('flags', None)
-        topo['out'] = ('..',) * (len(path) - 1) + ('out',)
+        up = ('..',) * (len(path) - 1)
+        if spec.get('cls') == 'FStep':
+            from dst.parties import FStep
+            st = FStep(params)
+            topo = {'tok': up + ('tok',), 'acc': up + ('acc',),
+                    'probe': up + ('verif_probe',)}
+            if spec.get('kill') or spec.get('gen'):
+                topo['world'] = up + ('world',)
+        else:
+            st = KStep(params)
+            topo = _topology_for(spec, len(path) - 1)
+            topo.pop('flags', None)
+            topo['out'] = up + ('out',)
         harness.assoc(processes if spec.get('where') == 'processes' else steps,
                       path, st)
         harness.assoc(topology, path, topo)
@@ -249,8 +258,27 @@ def _permute_keep_steps(d, rng):
     return {k: _permute_keep_steps(d[k], rng) for k in out}
 
 
+def _deriver_order(d, flow, path=()):
+    """Names of the flow-less steps of a processes/steps dict in depth-first
+    declaration order."""
+    from vivarium.core.process import Process
+    out = []
+    for k, v in d.items():
+        if isinstance(v, dict):
+            out += _deriver_order(v, flow, path + (k,))
+        elif isinstance(v, Process) and v.is_step():
+            f = flow
+            for seg in path + (k,):
+                f = f.get(seg) if isinstance(f, dict) else None
+                if f is None:
+                    break
+            if f is None:
+                out.append(k)
+    return out
+
+
 def budget_for(case, units):
-    n = len(case['procs']) + len(case.get('steps', [])) + 2
+    n = len(case['procs']) + 3 * len(case.get('steps', [])) + 2
     return 4000 * (units + 20) * n
 
 
@@ -263,6 +291,8 @@ def execute(case, parallel=(), perm=None, emit_step=None):
     harness.begin_run(t0)
     try:
         processes, steps, topology, flow = build(case, parallel, perm)
+        run.extra['deriver_order_processes'] = _deriver_order(processes, flow)
+        run.extra['deriver_order_steps'] = _deriver_order(steps, flow)
         init = copy.deepcopy(case.get('init') or {})
         kw = {}
         if perm is not None:
@@ -808,14 +838,22 @@ def emit_flags(case):
         if sp.get('condition_path'):
             flags[tuple(sp['condition_path'])] = True
     for sp in case.get('steps', []):
-        flags[('out', sp['name'] + '_n')] = True
-        flags[('out', sp['name'] + '_sum')] = True
+        if sp.get('cls') == 'FStep':
+            flags[('tok', sp['name'])] = True
+            for gs in (sp.get('gen') or {}).get('steps', []):
+                flags[('tok', gs['name'])] = True
+        else:
+            flags[('out', sp['name'] + '_n')] = True
+            flags[('out', sp['name'] + '_sum')] = True
     flags[('verif_probe',)] = False
+    flags['world-alive'] = any(sp.get('kill') or sp.get('gen') for sp in case.get('steps', []))
     ss = case.get('store_schema') or {}
 
     def walk(d, path):
         if '_emit' in d:
             for k in list(flags):
+                if not isinstance(k, tuple):
+                    continue
                 if k[:len(path)] == path and len(k) > len(path):
                     flags[k] = d['_emit']
                 elif k == path:
@@ -867,14 +905,20 @@ def check_c12(case, run):
                          'initial row emitted before the initial step phase finished', e['seq']))
             return out
     flags = emit_flags(case)
+    world_alive = flags.pop('world-alive', False)
     want_paths = set(k for k, f in flags.items() if f)
     for e in rows:
         got = leaves({k: v for k, v in e['row'].items() if k != 'time'})
+        got = {k: v for k, v in got.items() if v != {}}
         snap = leaves(e['snap'] or {})
         exp = {}
         for pth in want_paths:
             if pth in snap:
                 exp[pth] = snap[pth]
+        if world_alive:
+            for pth, val in snap.items():
+                if len(pth) == 3 and pth[0] == 'world' and pth[2] == 'alive':
+                    exp[pth] = val
         if got != exp:
             extra = sorted(set(got) - set(exp))
             missing = sorted(set(exp) - set(got))
@@ -983,17 +1027,7 @@ def check_c04_instants(case, run, stats=None):
             sp = allspecs.get(e['uid'].split('#')[0])
             view = e.get('view')
             if sp is not None and view is not None:
-                want = {'acc': {v: (snap.get('acc') or {}).get(v) for v in sp.get('vars', [])},
-                        'probe': snap.get('verif_probe')}
-                if sp.get('fvars') or sp.get('condition_path'):
-                    fv = list(sp.get('fvars') or [])
-                    if sp.get('condition_path') and sp['condition_path'][1] not in fv:
-                        fv.append(sp['condition_path'][1])
-                    if not e['k'] == 'STEPNU' and sp['name'] in specs:
-                        want['flags'] = {v: (snap.get('flags') or {}).get(v) for v in fv}
-                if k == 'STEPNU' or sp['name'] not in specs:
-                    want['out'] = {sp['name'] + '_n': (snap.get('out') or {}).get(sp['name'] + '_n'),
-                                   sp['name'] + '_sum': (snap.get('out') or {}).get(sp['name'] + '_sum')}
+                want = expected_view(sp, snap, sp['name'] in specs)
                 if view != want:
                     out.append(V('C04', 'C04.view-not-snapshot', k,
                                  '%s of %s at %r saw %r, committed state projects to %r' % (
@@ -1006,6 +1040,35 @@ def check_c04_instants(case, run, stats=None):
     return out
 
 
+def expected_view(sp, snap, is_proc):
+    """Projection of a full-state snapshot on the variables a kernel/steps
+    party declares (root-level stores acc / flags / out / tok / world)."""
+    acc = snap.get('acc') or {}
+    want = {'acc': {v: acc.get(v) for v in sp.get('vars', [])},
+            'probe': snap.get('verif_probe')}
+    if sp.get('cls') == 'FStep':
+        names = [sp['name']] + [r_ for r_ in sp.get('reads', []) if r_ != sp['name']]
+        names += [g['name'] for g in (sp.get('gen') or {}).get('steps', [])]
+        tok = snap.get('tok') or {}
+        want['tok'] = {n: tok.get(n) for n in names}
+        if sp.get('kill') or sp.get('gen'):
+            world = snap.get('world') or {}
+            want['world'] = {c: {'alive': (world[c] or {}).get('alive')}
+                             for c in world}
+        return want
+    if is_proc:
+        if sp.get('fvars') or sp.get('condition_path'):
+            fv = list(sp.get('fvars') or [])
+            if sp.get('condition_path') and sp['condition_path'][1] not in fv:
+                fv.append(sp['condition_path'][1])
+            want['flags'] = {v: (snap.get('flags') or {}).get(v) for v in fv}
+    else:
+        out_ = snap.get('out') or {}
+        want['out'] = {sp['name'] + '_n': out_.get(sp['name'] + '_n'),
+                       sp['name'] + '_sum': out_.get(sp['name'] + '_sum')}
+    return want
+
+
 def rows_of(run):
     return [(e['row'].get('time'), {k: v for k, v in e['row'].items() if k != 'time'})
             for e in run.log if e['k'] == 'EMIT' and e.get('table') == 'history']
@@ -1014,7 +1077,9 @@ def rows_of(run):
 def commuting(case):
     """Oracle B only applies when the updates involved commute."""
     writers = sum(1 for sp in case['procs'] if sp.get('flags'))
-    return writers <= 1
+    # flow-less derivers that read each other are order-dependent by contract
+    ders = [sp for sp in case.get('steps', []) if sp.get('flow') is None and sp.get('reads')]
+    return writers <= 1 and len(ders) <= 1
 
 
 def check_c04_perm(case, run, run_p):
